@@ -104,6 +104,11 @@ def _cidr(s, v6_only=False):
         n = ipaddress.ip_network(s, strict=False)
     except ValueError:
         return False
+    if '%' in s:
+        # a zoned network (RFC 4007, 'fe80::1%eth0/64'): the stdlib takes
+        # it, netaddr does not, and the statement's CIDR grammar has no
+        # scope ids - not judged
+        return None
     return (n.version == 6) if v6_only else True
 
 
@@ -124,7 +129,12 @@ V6 = ('::1', '::', '1:2:3:4:5:6:7:8', '1:2:3:4:5:6:7:8:9', '1:2:3:4:5:6:7',
       '0000:0000:0000:0000:0000:ffff:192.168.100.100',
       '0000:0000:0000:0000:0000:ffff:192.168.100.100%' + 'z' * 15,
       '0000:0000:0000:0000:0000:ffff:192.168.100.100%' + 'z' * 16,
-      '0000:0000:0000:0000:0000:0000:0000:00001')
+      '0000:0000:0000:0000:0000:0000:0000:00001',
+      # the scope id is counted in characters
+      'fe80::1%' + '\u00e9' * 8, 'fe80::1%' + '\u00e9' * 15,
+      'fe80::1%' + '\u00e9' * 16, 'fe80::1%wlan-caf\u00e9-00012',
+      'fe80::1%' + '\u4e2d' * 6, 'fe80::1%eth0/64', 'fe80::1%1/128',
+      '::1%lo/', 'fe80::1%/', 'fe80::1/64%eth0')
 CIDRS = ('10.0.0.0/8', '10.0.0.0/0', '10.0.0.0/32', '10.0.0.0/33',
          '10.0.0.0/-1', '10.0.0.0/', '10.0.0.0', '10.0.0.0//8',
          '10.0.0.0/8/8', '10.0.0.0/8/', '/8', '', '::/0', '::/128', '::/129',
@@ -132,7 +142,10 @@ CIDRS = ('10.0.0.0/8', '10.0.0.0/0', '10.0.0.0/32', '10.0.0.0/33',
          '10.0.0.256/8', 'a/8', '10.0.0.0/a', '10.0.0.1/8', '::1/64/64',
          '10.0.0.0/ 8', '10.0.0.0/8 ', '10.0.0.0/+8', '10.0.0.0/8\n',
          '10.0.0.0/٨', '2001:db8::/ 64', '2001:db8::/64\n', '::/ffff::',
-         '10.0.0.0/255.0.0.0', '10.0.0.0/08')
+         '10.0.0.0/255.0.0.0', '10.0.0.0/08',
+         # a network has no scope id
+         'fe80::1%eth0', '::1%lo', 'fe80::1.2.3.4%eth0', 'fe80::1%eth0/64',
+         'fe80::%eth0/64', 'fe80::/64%eth0', '1.2.3.4%eth0', '::1%')
 
 
 def grammar_grids():
@@ -240,13 +253,16 @@ def run(ctx):
                     n = ipaddress.ip_network(s, strict=False)
                 except ValueError:
                     return ('return', False)
+                if '%' in s:
+                    return None     # zoned network: see _cidr
                 return ('return', n.version == 6)
         elif name == 'is_valid_ip':
             def oracle(v, ref=ref):
                 return ('return', ref(v['address']))
         else:
             def oracle(v, ref=ref):
-                return ('return', ref(v['address']))
+                r = ref(v['address'])
+                return None if r is None else ('return', r)
         grid_compare(rep, 'R11.1', name, 'address strings', outcomes,
                      {addr: grid}, oracle, hooks=HOOKS, value_eq=truthy_eq)
     _mac(ctx)
